@@ -43,6 +43,12 @@
     oracle covers those cases end to end.  The flattener as it was (selections excluded by their own
     directives took part in the grouping by alias, [fed_exec_gen false]) violated the property:
     [gateway_merges_excluded_selection_refuted].
+    Schema refreshes: the model has no refresh step.  [fed_exec] plans and executes with one planner; the
+    implementation does the same (Execute captures the planner once and hands it to every runOnService), so a
+    refresh that lands between two steps of a request does not change its answer.  That "a request uses one
+    planner throughout" is an ASSUMPTION of this file; it is checked on the implementation by the harness on
+    every generated case with a hop (request held after planning, planner of another version set installed,
+    request released: same answer), not proved.
     NOT proved: that [plan_root] succeeds whenever the premises on [g] and [flat] hold (it is a premise), and
     the relation between [eval_ref .. true] and [eval_ref .. false] (removing the __typename entries the query
     did not ask for), which the harness' comparison implements. *)
